@@ -46,7 +46,7 @@ type scase struct {
 }
 
 var scripts = []string{"absent", "refuse-then-appear", "blackhole", "blackhole-then-read", "throttled-slow", "throttled-fast", "healthy", "healthy-tinybuf",
-	"abort-early", "abort-late", "graceful-early", "graceful-late", "appear-then-abort", "healthy-many-dispatchers"}
+	"abort-early", "abort-late", "graceful-early", "graceful-late", "appear-then-abort", "healthy-many-dispatchers", "firstmatch-first-down"}
 
 func gen(idx int) scase {
 	r := mon.NewRng(mon.Seed(), 6, uint64(idx))
@@ -456,6 +456,15 @@ func runCase(res *mon.Result, c scase) {
 	key := fmt.Sprintf("c06r%d", c.Index)
 	r.dkey = mon.DestKey(key, r.ep.Addr)
 	r.cmd = fmt.Sprintf("addRoute sendAllMatch %s  %s spool=false flush=%d reconn=40 connbuf=%d iobuf=%d", key, r.ep.Addr, c.Flush, c.ConnBuf, c.IoBuf)
+	downFirst := ""
+	if c.Script == "firstmatch-first-down" {
+		// the first destination (in configured order) accepts the lines and is down without spool; a second,
+		// healthy one would accept them too. "While it is down with spooling disabled every line is counted":
+		// the lines belong to the first destination and must all show in its conn_down_no_spool counter.
+		downFirst = mon.ReservedAddr()
+		r.cmd = fmt.Sprintf("addRoute sendFirstMatch %s  %s prefix=c06. spool=false reconn=3600000  %s spool=false flush=%d reconn=40 connbuf=%d iobuf=%d", key, downFirst, r.ep.Addr, c.Flush, c.ConnBuf, c.IoBuf)
+		r.dkey = mon.DestKey(key, downFirst)
+	}
 	if err := mon.Apply(r.t, r.cmd); err != nil {
 		res.Violate("harness-setup", err.Error(), c)
 		return
@@ -488,6 +497,33 @@ func runCase(res *mon.Result, c scase) {
 	allKeys := []string{mon.KeyDestDropSlowConn(r.dkey), mon.KeyDestDropNoConn(r.dkey), mon.KeyDestOut(r.dkey)}
 
 	switch c.Script {
+	case "firstmatch-first-down":
+		if !r.online("fm") { // probe lines do not start with "c06.": they go to the healthy second destination
+			res.Inconclusive(fmt.Sprintf("case %d: second destination did not come online", c.Index))
+			return
+		}
+		d := mon.NewDeltas(allKeys...)
+		h, ok := phase(c.Lines, nil)
+		if !ok {
+			return
+		}
+		ok2 := false
+		for step := 0; step < 4000; step++ {
+			if d.Get(mon.KeyDestDropNoConn(r.dkey)) >= int64(h) {
+				ok2 = true
+				break
+			}
+			time.Sleep(2 * time.Millisecond)
+		}
+		got, _ := r.countLines()
+		no := d.Get(mon.KeyDestDropNoConn(r.dkey))
+		r.res.Count("lines_handed", h)
+		r.res.Count("lines_dropped_conn_down", int(no))
+		if !ok2 || no != int64(h) || got != 0 {
+			w := r.witness()
+			w["handed"], w["first_destination_conn_down_no_spool"], w["received_by_second_destination"] = h, no, got
+			res.Violate("uncounted-loss-down", fmt.Sprintf("send-first-match, first matching destination down without spool: handed %d, its conn_down_no_spool counter moved by %d, the later destination received %d", h, no, got), w)
+		}
 	case "absent":
 		d := mon.NewDeltas(allKeys...)
 		h, ok := phase(c.Lines, nil)
@@ -659,7 +695,7 @@ func main() {
 	res.Rule = "endpoint scripts {absent, refuse-then-appear, blackhole(+then read), throttled slow/fast, healthy (+tiny buffers, +8 dispatchers), abortive/graceful close early/late, appear-then-abort} x generated connbuf/iobuf/flush/line length/dispatcher count; every Table.Dispatch call is timed by the stall detector; conservation identities at the steady states; non-trivial = the case ran to the end with its monitors active; distinct = (script, connbuf, iobuf, dispatchers)"
 	res.Assume("'never stalls' is restated as: each of the N hand-offs returned within the stall bound (2s quick / 5s thorough, normal < 1ms), confirmed by two stack samples of a parked goroutine; anything else long is inconclusive")
 	res.Assume("identities are asserted only in steady states (connection up throughout a phase / endpoint absent throughout a phase), never across a transition")
-	n := mon.N(14, 14*14)
+	n := mon.N(len(scripts), len(scripts)*14)
 	var wg sync.WaitGroup
 	sem := make(chan struct{}, 3)
 	ran := 0
